@@ -91,7 +91,7 @@ M('c06_token_plain_add', ['C06'], ['C06-R1', 'C06-R2', 'C06-R3'], 'timer token b
    "        // handling events that aren't relevant anymore.\n        self.timer_token = self.timer_token + 1;"))
 M('c06_new_unwrap', ['C06'], ['C06-R2'], 'forget-timer handler unwraps the removal result',
   (LIB, 'if let Some(_removed) = self.members.remove_if_down(&down) {', 'let _removed = self.members.remove_if_down(&down).unwrap(); {'))
-M('c06_fill_fit_test_weakened', ['C06', 'C07', 'C15'], ['C06-R2'], 'fill writes an entry that may not fit',
+M('c06_fill_fit_test_weakened', ['C06', 'C15'], ['C06-R2'], 'fill writes an entry that may not fit',
   (BROADCAST, '            if buffer.remaining_mut() >= node.data.len() {\n                num_taken += 1;',
    '            if buffer.remaining_mut() > 0 {\n                num_taken += 1;'))
 M('c06_prefix_fit_forgets_prefix', ['C06', 'C15', 'C16'], ['C06-R2', 'C15-R2', 'C16-R3'], 'length-prefixed fill forgets the 2 prefix bytes in the fit test',
@@ -172,7 +172,7 @@ M('c08_rename_after_up', ['C08'], ['C08-R2'], 'Rename notified after MemberUp',
             runtime.notify(Notification::Rename(&old, &id));
         }
 '''))
-M('c08_summary_dropped_on_probe_failure', ['C08', 'C12'], ['C08-R3'], 'probe failure applies Suspect but never handles the summary',
+M('c08_summary_dropped_on_probe_failure', ['C08'], ['C08-R3'], 'probe failure applies Suspect but never handles the summary',
   (LIB, '                self.handle_apply_summary(summary, as_suspect, true, &mut runtime)?;\n', '                let _ = (summary, as_suspect);\n'))
 M('c08_was_active_after_write', ['C08'], ['C08-R4'], 'was_active is sampled after the record was modified',
   (MEMBER, '            let was_active = known_member.is_active();\n\n            let (apply_successful, conflict) = if id_conflict {',
@@ -180,7 +180,7 @@ M('c08_was_active_after_write', ['C08'], ['C08-R4'], 'was_active is sampled afte
   (MEMBER, '            let is_active_now = known_member.is_active();\n            let changed_active_set', '            let was_active = known_member.is_active();\n            let is_active_now = known_member.is_active();\n            let changed_active_set'))
 M('c08_num_active_on_every_apply', ['C08'], ['C08-R4'], 'num_active bumped whenever the update is active, not only when the set changed',
   (MEMBER, '            if changed_active_set {\n                // XXX Overzealous checking\n                if is_active_now {', '            if apply_successful {\n                // XXX Overzealous checking\n                if is_active_now {'))
-M('c08_undead_without_defunct', ['C08', 'C13'], ['C08-R5'], 'become_undead only notifies Defunct when it was connected',
+M('c08_undead_without_defunct', ['C08'], ['C08-R5'], 'become_undead only notifies Defunct when it was connected',
   (LIB, '        runtime.notify(Notification::Defunct);', '        if self.probe.validate() {\n            runtime.notify(Notification::Defunct);\n        }'))
 M('c08_connected_without_members', ['C08'], ['C08-R5', 'C06-R2'], 'Active reported from the idle state without any active member',
   (LIB, '                if self.members.num_active() > 0 {\n                    self.become_connected(runtime);', '                if self.members.num_active() > 0 || self.updates_backlog() > 3 {\n                    self.become_connected(runtime);'))
@@ -240,7 +240,7 @@ M('c10_max_check_off_by_one', ['C10'], ['C10-R1'], 'MAX handling compares agains
   (LIB, 'let incarnation = Incarnation::max(incarnation, self.incarnation);', 'let incarnation = Incarnation::max(incarnation.min(7), self.incarnation);'))
 M('c10_suspect_bumps_known_incarnation', ['C10', 'C12'], ['C10-R3'], 'probe failure suspects the member at incarnation + 1 (fabricated)',
   (LIB, 'let as_suspect = Member::new(failed.id().clone(), failed.incarnation(), State::Suspect);', 'let as_suspect = Member::new(failed.id().clone(), failed.incarnation().saturating_add(1), State::Suspect);'))
-M('c10_gossip_different_update', ['C10', 'C15'], ['C10-R3'], 'what is gossiped is not the update that was applied',
+M('c10_gossip_different_update', ['C10'], ['C10-R3'], 'what is gossiped is not the update that was applied',
   (LIB, '                let data = self.serialize_member(update)?;', '                let data = self.serialize_member(Member::new(id.clone(), update.incarnation(), State::Alive))?;'))
 M('c10_defunct_skipped_when_disconnected', ['C10', 'C08'], ['C10-R4', 'C08-R5'], 'a non-renewable instance told it is Down stays as it is when it was idle',
   (LIB, '''                if !self.attempt_rejoin(&mut runtime)? {
@@ -256,7 +256,7 @@ M('c10_defunct_skipped_when_disconnected', ['C10', 'C08'], ['C10-R4', 'C08-R5'],
             }
         }
         Ok(())'''))
-M('c10_rejoin_with_losing_identity', ['C10', 'C05'], ['C10-R4'], 'renewed identity accepted even if it does not win the conflict',
+M('c10_rejoin_with_losing_identity', ['C10'], ['C10-R4'], 'renewed identity accepted even if it does not win the conflict',
   (LIB, '} else if !new_identity.win_addr_conflict(&self.identity) {', '} else if self.identity.win_addr_conflict(&new_identity) && new_identity.win_addr_conflict(&self.identity) {'))
 M('c10_previous_identity_not_declared_down', ['C10'], ['C10-R4'], 'change_identity never queues Down(previous)',
   (LIB, '            if !previous_is_down {\n                let addr', '            if previous_is_down {\n                let addr'))
@@ -295,7 +295,7 @@ M('c12_indirect_ack_from_unasked', ['C12'], ['C12-R1'], 'a ForwardedAck from a m
    '        if self.indirect.is_empty() {\n            self.indirect_ack_count += 1;\n            return true;\n        }\n        if let Some(position) = self.indirect.iter().position(|id| id == from) {\n            self.indirect_ack_count += 1;'))
 M('c12_indirect_double_count', ['C12'], ['C12-R1'], 'an asked helper can be counted twice (not removed)',
   (PROBE, '            // Ensure we can\'t double count the same candidate\n            self.indirect.swap_remove(position);\n', '            let _ = position;\n'))
-M('c12_clear_keeps_evidence', ['C12', 'C13'], ['C12-R1'], 'evidence of the previous round survives clear()',
+M('c12_clear_keeps_evidence', ['C12'], ['C12-R1'], 'evidence of the previous round survives clear()',
   (PROBE, '        self.direct_ack_ok = false;\n        self.indirect_ack_count = 0;', '        self.indirect_ack_count = 0;'))
 M('c12_forwardedack_number_ignored', ['C12'], ['C12-R2'], 'ForwardedAck reported with the current probe number instead of the one it carries',
   (LIB, 'if self.probe.receive_indirect_ack(&src, probe_number) {', 'if self.probe.receive_indirect_ack(&src, self.probe.probe_number()) {'))
@@ -322,7 +322,7 @@ M('c12_ack_number_not_echoed', ['C12'], ['C12-R4'], 'Ack does not echo the probe
 M('c12_relay_self_check_dropped', ['C12'], ['C12-R4'], 'a PingReq naming ourselves as target is relayed to ourselves',
   (LIB, '                if target == self.identity {\n                    return Err(Error::IndirectForOurselves);\n                }\n                self.send_message(\n                    target,\n                    Message::IndirectPing {',
    '                self.send_message(\n                    target,\n                    Message::IndirectPing {'))
-M('c12_replies_when_undead', ['C12', 'C03'], ['C12-R4'], 'a defunct instance keeps answering probes',
+M('c12_replies_when_undead', ['C12'], ['C12-R4'], 'a defunct instance keeps answering probes',
   (LIB, '        if self.connection_state != ConnectionState::Connected {\n            return custom_broadcasts_result;', '        if self.connection_state == ConnectionState::Disconnected {\n            return custom_broadcasts_result;'))
 M('c12_suspect_twice', ['C12', 'C11'], ['C12-R5'], 'a second suspicion timer is scheduled when the record was already Suspect',
   (LIB, '                if is_active_now {\n                    // We check for summary.apply_successful prior to logging', '                if !apply_successful {\n                    runtime.submit_after(Timer::ChangeSuspectToDown { member_id: failed.id().clone(), incarnation: failed.incarnation(), token: self.timer_token }, self.config.suspect_to_down_after);\n                }\n                if is_active_now {\n                    // We check for summary.apply_successful prior to logging'))
@@ -330,9 +330,9 @@ M('c12_probe_number_not_advanced', ['C12'], ['C12-R5'], 'probe number only advan
   (PROBE, '        self.probe_number = self.probe_number.wrapping_add(1);', '        if self.indirect.capacity() > 0 {\n            self.probe_number = self.probe_number.wrapping_add(1);\n        }'))
 
 # ---------------------------------------------------------------- C13
-M('c13_undead_keeps_token', ['C13', 'C03'], ['C13-R1'], 'becoming defunct does not start a new epoch: old timers stay effective',
+M('c13_undead_keeps_token', ['C13'], ['C13-R1'], 'becoming defunct does not start a new epoch: old timers stay effective',
   (LIB, "        // handling events that aren't relevant anymore.\n        self.timer_token = self.timer_token.wrapping_add(1);\n", "        // handling events that aren't relevant anymore.\n"))
-M('c13_idle_keeps_probe', ['C13', 'C12'], ['C13-R1'], 'going idle keeps the in-flight probe state',
+M('c13_idle_keeps_probe', ['C13'], ['C13-R1'], 'going idle keeps the in-flight probe state',
   (LIB, '        self.timer_token = self.timer_token.wrapping_add(1);\n        self.probe.clear();\n\n        runtime.notify(Notification::Idle);', '        self.timer_token = self.timer_token.wrapping_add(1);\n\n        runtime.notify(Notification::Idle);'))
 M('c13_gossip_timer_no_token_check', ['C13'], ['C13-R2'], 'periodic gossip timers of older epochs are honoured (duplicated loops)',
   (LIB, '''                // Exact same thing as PeriodicAnnounce, just using different settings / messages
@@ -509,7 +509,7 @@ M('c16_store_whole_remainder', ['C16'], ['C16-R1'], 'a received item is stored w
   (LIB, '                    pkt.to_vec(),\n', '                    data.to_vec(),\n'))
 M('c16_handler_sees_prefix', ['C16'], ['C16-R2'], 'the handler is shown the remaining buffer instead of the item',
   (LIB, '                .receive_item(pkt, sender)', '                .receive_item(data, sender)'))
-M('c16_advance_only_when_accepted', ['C16', 'C06'], ['C16-R2'], 'rejected (stale) items are not skipped: shown again as garbage',
+M('c16_advance_only_when_accepted', ['C16'], ['C16-R2'], 'rejected (stale) items are not skipped: shown again as garbage',
   (LIB, '''                    self.config.max_transmissions.get().into(),
                 );
             }
@@ -617,7 +617,7 @@ M('c17_change_identity_resets_first', ['C17', 'C10'], ['C17-R2'], 'change_identi
             Err(Error::SameIdentity)''', '''        if self.identity == new_id {
             self.reset();
             Err(Error::SameIdentity)'''))
-M('c17_accept_any_announce', ['C17', 'C09'], ['C17-R3'], 'Announce accepted whatever its destination',
+M('c17_accept_any_announce', ['C17'], ['C17-R3'], 'Announce accepted whatever its destination',
   (LIB, '''            || (header.message == Message::Announce
                 // Then we accept it if DST is one of our _possible_
                 // identities
